@@ -17,6 +17,7 @@ CHECKS["C06"] = dict(cat="model_checking", tech="stateless model checking: exhau
 CHECKS["C13"] = dict(cat="model_checking", tech="explicit-state BFS to closure over API call sequences on the real BaseObserver with fault-injecting emitter class, compared step by step with a reference map", text="BFS over all call sequences of the alphabet (incl. schedule failing at emitter construction/start) until no new canonical state appears; after every call emitters, liveness and marker routing are compared with a dict-of-sets reference.", note="trusted: reference map model; alphabet restricted to well-formed calls; closure reported per run", ref="3 C13")
 CHECKS["C14"] = dict(cat="exploration", tech="exhaustive enumeration of all directory trees <=4/5 entries over names colliding with the rewritten prefix, real generator functions on a real scratch tree, independent scandir reference", text="Every tree over the names {a,b} (so inner names repeat the moved directory's own name), six spellings (relative / prefixed relative / absolute x str/bytes), both generator functions, compared event by event with an independent recursion: one event per descendant, right paths, flavour, parent-before-child, synthetic flag, path type.", note="exhaustive within the stated universe; larger names/trees not covered; the same prefix rewrite in the inotify watch map is covered by the fsops checks, not here", ref="3 C14")
 CHECKS["C15"] = dict(cat="exploration", tech="exhaustive enumeration of event classes x paths x pattern/regex lists x flags against an independent pathlib/re reference evaluator", text="Full product of 11 event classes x path universe (str/bytes, mixed case, one directory level) x include/exclude lists of <=2 patterns (globs and regexes; thorough adds '^$') x case_sensitive x ignore_directories for the three handler classes, plus filter_paths/match_any_paths over short path lists; every case compared with a reference written from the statement.", note="exhaustive within the stated universe; reference evaluator uses pathlib/re directly", ref="3 C15")
+CHECKS["C08"] = dict(cat="model_checking", tech="stateless model checking: exhaustive enumeration of native sequences x batch cuts x gaps, each under exhaustive deviation-bounded schedules of the real InotifyBuffer/DelayedQueue with a scripted Inotify", text="All native event sequences up to length 3 (quick) / 4 (thorough) over moves with and without partner and other events, all cuts into read batches, gaps {0,d/2,d,3d/2} on the virtual clock, all interleavings of kernel, reader and consumer within the deviation bound; oracle: exactly-once, kernel order, pairs are real pairs, unmatched FROM never early, pairing not missed while FROM provably still queued, None after close.", note="Inotify itself is scripted here (the real one is exercised by the fsops checks); trusted: wdmc.vsched", ref="3 C08")
 NA = {}
 def main():
     checks = []
